@@ -47,7 +47,7 @@ class Group:
                  unwindset=None, checks=None, floats=False, backend='sat', timeout=600, mem_gb=24,
                  tier='quick', defines=(), canary=True, min_props=1, expect_loop_props=0, object_bits=12,
                  rec=False, note='', extra_cbmc=(), no_unwind_funcs=(), property_ids=None, covers=None,
-                 slice_=False):
+                 slice_=False, cases=None):
         self.__dict__.update(locals())
         del self.__dict__['self']
 
@@ -242,8 +242,23 @@ def prove_all(cfile_for, groups, workdir, jobs=16, log=print):
     """cfile_for(group) -> path of the C file.  Runs each group and its canary in parallel."""
     results = []
     tasks = []
+    import copy
     with ThreadPoolExecutor(max_workers=jobs) as ex:
+        expanded = []
         for g in groups:
+            if g.cases:
+                # complete case split on a compile-time constant: every case must be discharged
+                macro, values = g.cases
+                for i, v in enumerate(values):
+                    gi = copy.copy(g)
+                    gi.name = '%s[%s=%s]' % (g.name, macro, v)
+                    gi.defines = tuple(g.defines) + ('%s=%s' % (macro, v),)
+                    gi.cases = None
+                    gi.canary = g.canary and i == 0
+                    expanded.append(gi)
+            else:
+                expanded.append(g)
+        for g in expanded:
             tasks.append(ex.submit(prove_group, cfile_for(g), g, workdir, False))
             if g.canary:
                 tasks.append(ex.submit(prove_group, cfile_for(g), g, workdir, True))
